@@ -474,6 +474,56 @@ pub fn run_child(ctx: &Ctx) -> Report {
         base += n_f;
     }
 
+    // ---- (c4) header maps filled to the brim: requests with as many distinct header names as the http crate admits
+    //      (24576), one and two fewer, and 32767 values of one name; plain, and as a form POST with Content-Length /
+    //      Content-Type under every option set (whatever the library adds to, or rewrites in, a map that is full)
+    {
+        let mut variants: Vec<(String, WireReq, Cfg)> = Vec::new();
+        for total_names in [24_574usize, 24_575, 24_576] {
+            for form in [false, true] {
+                for qc in [false, true] {
+                    let mut plan = e2e::base_plan(if qc { Carrier::Query } else { Carrier::Header });
+                    if form {
+                        plan.method = "POST".into();
+                        plan.body = b"Action=ListUsers&Version=2010-05-08".to_vec();
+                        plan.body_params = Some(vec![(b"Action".to_vec(), b"ListUsers".to_vec()), (b"Version".to_vec(), b"2010-05-08".to_vec())]);
+                        plan.headers.push(("Content-Type".into(), b"application/x-www-form-urlencoded".to_vec()));
+                        plan.headers.push(("Content-Length".into(), plan.body.len().to_string().into_bytes()));
+                        plan.signed.push("content-type".into());
+                    }
+                    let mut w = WireReq::from_wire(&build(&plan).wire);
+                    let mut distinct: Vec<String> = w.headers.iter().map(|h| h.0.to_ascii_lowercase()).collect();
+                    distinct.sort();
+                    distinct.dedup();
+                    for k in 0..total_names.saturating_sub(distinct.len()) {
+                        w.headers.push((format!("x-fill-{:05}", k), b"f".to_vec()));
+                    }
+                    for (s3, fold) in [(false, false), (false, true), (true, true)] {
+                        let mut cfg = Cfg::basic(now);
+                        cfg.s3 = s3;
+                        cfg.fold = fold;
+                        variants.push((format!("{} distinct header names", total_names), w.clone(), cfg));
+                    }
+                }
+            }
+        }
+        {
+            let mut w = base_wire.clone();
+            for k in 0..32_700 {
+                w.headers.push(("X-Many".into(), format!("{}", k).into_bytes()));
+            }
+            variants.push(("32700 values of one header name".into(), w, Cfg::basic(now)));
+        }
+        let n_v = variants.len() as u64;
+        let b = base;
+        let part = par_sweep(n_v, |i, st| {
+            let (_, w, cfg) = &variants[i as usize];
+            total(b + i, "header-map-at-capacity", w.clone(), cfg, &std_prov, st);
+        });
+        st = st.merge(part);
+        base += n_v;
+    }
+
     // ---- (d) bodies
     let mut lens: Vec<usize> = vec![0, 1, 2, 3, 1000];
     lens.extend(21838..=21852);
@@ -839,7 +889,7 @@ pub fn run_child(ctx: &Ctx) -> Report {
     Report {
         stats: st,
         rule: format!(
-            "every case runs under catch_unwind inside a child process whose address space is limited to 12 GiB and whose run time is limited by the parent (abnormal termination, allocation without bound and a case that never returns = violation), with overflow checks and debug assertions on, alternately with log formatting on, against a strict key provider (panics when called without readiness; not ready at once / answer pending for a share of the cases): (a) the C13 defect product on both carriers x {{default,S3,fold}} x 3 requirement sets (incl. non-ASCII and empty names); (b) every printable ASCII byte substituted and inserted at every position of 5 URI templates, every two-character escape %c1c2 over 94^2 in path, query value and query name, 40 special URIs (asterisk-, authority-, absolute-form, truncated escapes, 40-60 kB paths / queries) x 2 carriers x 3 options; (b') 45 request targets of every form (origin, absolute, authority incl. bare host and IPv6, asterisk, empty, fragment, scheme without path) x 6 form bodies x 3 content types x {{default,S3,fold,S3+fold}} x carrier, so that the target is rebuilt under form folding; (c) every byte HeaderValue admits (tab, 0x20-0x7E, 0x80-0xFF) substituted and inserted at every{} position of Authorization / X-Amz-Date / Date / Content-Type / token values; (c') every empty, one-byte and two-byte value of a Content-Type parameter (charset in two spellings, boundary, a trailing parameter; form and JSON types) and of the Credential / SignedHeaders / Signature fields; (c3) Authorization headers made of every sequence of up to 4 (thorough 5) fields over ten kinds (Credential / SignedHeaders / Signature each well-formed, wrong or empty, an unknown parameter, a bare word, an empty field) with ', ' or ',' between them, each with and without the logger formatting its records; (c'') SignedHeaders lists of 10..104 entries that differ in letter case only, in 7 structured arrangements x 8 rotations and 60 (thorough 400) fixed shuffles per length, on both carriers; (d) bodies of {} lengths (around 21845, 32768, 65535, up to 200000) x 8 fills (expanding bytes, pairs, UTF-8, separators, escapes) x 11 content types x fold x carrier; all 256 one-byte and every {}th two-byte body as a UTF-8 form; {} charset labels x all one-byte, every {}th two-byte and 4 special bodies; (e) 9 capacities x secret lengths 0..100 x 4 fills; (f) every C16 timestamp string on both carriers and through the unstable API; (f') server clocks within 901 s of the smallest and largest DateTime<Utc>, the epoch, years 0 / 1 / 9999 / 10000 and the 32-bit limits x 11 request dates whose UTC year is -1, 0, 9999 or 10000; (g) every subset of set fields of the three builders; (h) every SignatureError shape x 4 messages through Display/Debug/source/code/status/From<Box>; (i) derivation with empty / non-ASCII / 10 kB scopes and NaiveDate::MIN/MAX/year 0/-1/10000; canonicalisation helpers on degenerate and 1 MiB inputs. Oracle: a value or an error, never a panic, abort, hang or non-SignatureError. states = (sweep, outcome class)",
+            "every case runs under catch_unwind inside a child process whose address space is limited to 12 GiB and whose run time is limited by the parent (abnormal termination, allocation without bound and a case that never returns = violation), with overflow checks and debug assertions on, alternately with log formatting on, against a strict key provider (panics when called without readiness; not ready at once / answer pending for a share of the cases): (a) the C13 defect product on both carriers x {{default,S3,fold}} x 3 requirement sets (incl. non-ASCII and empty names); (b) every printable ASCII byte substituted and inserted at every position of 5 URI templates, every two-character escape %c1c2 over 94^2 in path, query value and query name, 40 special URIs (asterisk-, authority-, absolute-form, truncated escapes, 40-60 kB paths / queries) x 2 carriers x 3 options; (b') 45 request targets of every form (origin, absolute, authority incl. bare host and IPv6, asterisk, empty, fragment, scheme without path) x 6 form bodies x 3 content types x {{default,S3,fold,S3+fold}} x carrier, so that the target is rebuilt under form folding; (c) every byte HeaderValue admits (tab, 0x20-0x7E, 0x80-0xFF) substituted and inserted at every{} position of Authorization / X-Amz-Date / Date / Content-Type / token values; (c') every empty, one-byte and two-byte value of a Content-Type parameter (charset in two spellings, boundary, a trailing parameter; form and JSON types) and of the Credential / SignedHeaders / Signature fields; (c3) Authorization headers made of every sequence of up to 4 (thorough 5) fields over ten kinds (Credential / SignedHeaders / Signature each well-formed, wrong or empty, an unknown parameter, a bare word, an empty field) with ', ' or ',' between them, each with and without the logger formatting its records; (c4) requests with 24574 / 24575 / 24576 distinct header names (the most the http crate admits) and 32700 values of one name, plain and as a folded form POST with Content-Length, under 3 option sets on both carriers; (c'') SignedHeaders lists of 10..104 entries that differ in letter case only, in 7 structured arrangements x 8 rotations and 60 (thorough 400) fixed shuffles per length, on both carriers; (d) bodies of {} lengths (around 21845, 32768, 65535, up to 200000) x 8 fills (expanding bytes, pairs, UTF-8, separators, escapes) x 11 content types x fold x carrier; all 256 one-byte and every {}th two-byte body as a UTF-8 form; {} charset labels x all one-byte, every {}th two-byte and 4 special bodies; (e) 9 capacities x secret lengths 0..100 x 4 fills; (f) every C16 timestamp string on both carriers and through the unstable API; (f') server clocks within 901 s of the smallest and largest DateTime<Utc>, the epoch, years 0 / 1 / 9999 / 10000 and the 32-bit limits x 11 request dates whose UTC year is -1, 0, 9999 or 10000; (g) every subset of set fields of the three builders; (h) every SignatureError shape x 4 messages through Display/Debug/source/code/status/From<Box>; (i) derivation with empty / non-ASCII / 10 kB scopes and NaiveDate::MIN/MAX/year 0/-1/10000; canonicalisation helpers on degenerate and 1 MiB inputs. Oracle: a value or an error, never a panic, abort, hang or non-SignatureError. states = (sweep, outcome class)",
             if thorough { "" } else { " (every 3rd for Authorization)" }, lens.len(), two_stride, LABELS.len(), label_stride
         ),
         bounds: json!({"cases": base}),
